@@ -32,9 +32,9 @@ AUTH = {0: ('deauthenticate', []), 1: ('verify_certificate_unidirectional', ['cc
 AUTH_ALL = ['cc', 'evalid', 'cert', 'chal', 'algo', 'certdata', 'pown', 'eph', 'add']
 
 
-def marked(case):
-    """half of the cases, chosen by the case itself (so that a replay makes the same choice)"""
-    return (zlib.crc32(case.line().encode()) & 1) == 0
+def marked(case, bit=0):
+    """half of the cases, chosen by the case itself (so that a replay makes the same choice); bit selects an independent half"""
+    return ((zlib.crc32(case.line().encode()) >> bit) & 1) == 0
 
 
 def narrow(values, names, all_names):
